@@ -21,6 +21,7 @@ import sys
 import tempfile
 import types
 import unittest
+from concurrent.futures import ThreadPoolExecutor
 
 from . import tlc
 from .common import BUILD, Report, jdump, repo_path, shrink, use_repo
@@ -36,9 +37,45 @@ ABSENT = MODNAME + ".Z.test_absent"
 RUNLOG = []
 
 
+# second id scheme (variant bit 1): ids with embedded spaces / tabs, as parameterised tests, clone_test_with_new_id and
+# PlaceHolders have; id 3 contains the whole of id 1 as a whitespace-separated fragment.  Order of the ids as above.
+SPACEY = {
+    2: "(py 3,\tno ssl)",
+    3: " " + MODNAME + ".A.test_e",
+    5: " [variant  x]",
+}
+SCHEME = [0]
+
+
 def cid(n):
     c, m = IDPARTS[n]
-    return "%s.%s.%s" % (MODNAME, c, m)
+    base = "%s.%s.%s" % (MODNAME, c, m)
+    return base + SPACEY.get(n, "") if SCHEME[0] else base
+
+
+def absent():
+    return ABSENT + (" " + MODNAME + ".D.test_b" if SCHEME[0] else "")
+
+
+def set_variant(variant):
+    """bit 0: FixtureSuite stands for the sort_tests subclass; bit 1: ids with embedded whitespace."""
+    SCHEME[0] = (variant >> 1) & 1
+
+
+def write_list(path, ids, style):
+    """A --load-list file in one of the shapes the line-wise parser accepts (one id per line, surrounding whitespace and
+    blank lines ignored): LF, CRLF, no final newline, blank lines + trailing blanks."""
+    style %= 4
+    if style == 0:
+        text = "".join(i + "\n" for i in ids)
+    elif style == 1:
+        text = "".join(i + "\r\n" for i in ids)
+    elif style == 2:
+        text = "\n".join(ids)
+    else:
+        text = "\n" + "".join(i + " \t\n\n" for i in ids) + "   \n"
+    with open(path, "wb") as fh:
+        fh.write(text.encode("utf-8"))
 
 
 _K = {}
@@ -100,6 +137,7 @@ def kit():
         Fixture=fixtures.Fixture,
         mod=mod,
         testsuite=testsuite,
+        clone=testtools.clone_test_with_new_id,
     )
     return _K
 
@@ -132,11 +170,13 @@ def build(node, variant=0, path=()):
     if k == "case":
         cls, meth = K["cases"][node["id"]]
         obj = cls(meth)
+        if obj.id() != cid(node["id"]):
+            obj = K["clone"](obj, cid(node["id"]))
     elif k == "holder":
         obj = K["Holder"](cid(node["id"]))
     else:
         kids = [build(c, variant, path + (i + 1,)) for i, c in enumerate(node["kids"])]
-        if k == "customsort" and variant == 1:
+        if k == "customsort" and variant & 1:
             obj = K["FixtureSuite"](K["Fixture"](), kids)
         else:
             obj = K[k](kids)
@@ -174,7 +214,7 @@ def expected_leaves(obs):
 
 
 def idset(ids, form=0):
-    s = [ABSENT if i not in IDPARTS or i > NIDS[0] else cid(i) for i in ids]
+    s = [absent() if i not in IDPARTS or i > NIDS[0] else cid(i) for i in ids]
     return (set(s), frozenset(s), list(s), tuple(s))[form % 4]
 
 
@@ -357,8 +397,7 @@ def check_program(rep, row, nodes, root_abs, variant, tmpdir, rnd):
     picks = rnd.sample(row["filt"], 2)
     for f in picks:
         path = os.path.join(tmpdir, "load.list")
-        with open(path, "wb") as fh:
-            fh.write(("\n".join(idset(f["ids"], 2)) + "\n").encode("utf-8"))
+        write_list(path, idset(f["ids"], 2), rnd.randrange(4))
         exp = [cid(o["id"]) for o in f["kept"]]
         out, code, ran = run_program(build(root_abs, variant), ["--list", "--load-list", path])
         yield "list+load-list", f["ids"], (
@@ -374,6 +413,7 @@ import json, sys
 sys.path.insert(0, %(verif)r)
 from harness import c19, common
 common.use_repo()
+c19.set_variant(%(variant)d)
 def test_suite():
     return c19.build(c19.nest(json.loads(%(nodes)r)), %(variant)d)
 """
@@ -381,14 +421,14 @@ def test_suite():
 
 def check_subprocess(row, variant, tmpdir, ids=None):
     """python -m testtools.run as a real process: stdout and exit status."""
+    set_variant(variant)
     with open(os.path.join(tmpdir, "verif_c19_sub.py"), "w") as fh:
         fh.write(SUBPROCESS_MODULE % dict(verif=tlc.VERIF, nodes=json.dumps(row["nodes"]), variant=variant))
     args = ["--list"]
     exp = [cid(o["id"]) for o in row["leaves"]]
     if ids is not None:
         path = os.path.join(tmpdir, "sub.list")
-        with open(path, "w") as fh:
-            fh.write("\n".join(idset(ids["ids"], 2)) + "\n")
+        write_list(path, idset(ids["ids"], 2), len(ids["ids"]))
         args += ["--load-list", path]
         exp = [cid(o["id"]) for o in ids["kept"]]
     env = dict(os.environ, PYTHONPATH=repo_path() + os.pathsep + tmpdir, VERIF_REPO=repo_path())
@@ -429,7 +469,8 @@ def nontrivial(root):
 
 def replay_row(rep, row, n, cfg, prog=None):
     root_abs = nest(row["nodes"])
-    variant = n % 2
+    variant = n % 4
+    set_variant(variant)
     nt = nontrivial(root_abs)
     key = jdump(row["nodes"]) if nt else None
 
@@ -459,7 +500,8 @@ def replay_row(rep, row, n, cfg, prog=None):
 def replay_behaviour(rep, hist, n, cfg):
     """grow; filter_by_ids in place (twice); sorted_tests - comparing after every call."""
     root_abs = nest(hist[0]["before"])
-    variant = n % 2
+    variant = n % 4
+    set_variant(variant)
     cur = build(root_abs, variant)
     nt = nontrivial(root_abs)
     for i, h in enumerate(hist):
@@ -518,6 +560,9 @@ def run(tier, pid="C19"):
         "distinct by (tree, operation, argument).",
     )
     rep.assume("PlaceHolder ids are chosen equal to TestCase ids (module.Class.method), so both kinds can collide")
+    rep.assume("half of the trees use ids with embedded spaces / tabs (TestCases through clone_test_with_new_id), one id "
+               "containing another test's id as a fragment; ids have no leading / trailing whitespace and no line breaks; "
+               "--load-list files come as LF, CRLF, without final newline, and with blank lines and trailing blanks")
     rep.assume("'placed by their first test': first test before or after the suite's own sort_tests are both accepted")
     rep.assume("a custom suite without any test has no key: any position accepted, an exception is not")
     rep.assume("grouping is observed as the chain of original suite objects around each kept test; the empty suites "
@@ -526,20 +571,37 @@ def run(tier, pid="C19"):
                "PlaceHolder are not loadable by unittest's loader and are left out of the --list/--load-list sample")
     rnd = random.Random(rep.seed)
     tmpdir = tempfile.mkdtemp(prefix="c19-", dir=BUILD if os.path.isdir(BUILD) else None)
+    pool = None
     try:
+        # The quick tier's TLC runs are independent and largely JVM start-up: started ahead, three at a time,
+        # consumed in order.  (The thorough tier's exports are big: one after the other.)
+        quick = tier == "quick"
+        W = 4 if quick else 8
+        sim_kw = dict(simulate=dict(num=800 if quick else 6000, depth=16), seed=rep.seed + 1)
+        futures = {}
+        if quick:
+            pool = ThreadPoolExecutor(max_workers=3)
+            for cfg, kw in (("su_cov.cfg", dict(coverage=True)), ("su_coded.cfg", {}), ("su_mc4.cfg", {}),
+                            ("su_exp4.cfg", {}), ("su_exps5.cfg", {}), ("su_sim.cfg", sim_kw)):
+                futures[cfg] = pool.submit(tlc.run_tlc, "pure", "MCSuites", cfg, workers=W, timeout=3000, **kw)
+
+        def fetch(cfg, **kw):
+            f = futures.pop(cfg, None)
+            return f.result() if f is not None else tlc.run_tlc("pure", "MCSuites", cfg, workers=W, timeout=3000, **kw)
+
         # vacuity control (coverage is affordable only on the small instance; see spec/pure/su_cov.cfg)
-        r = tlc.run_tlc("pure", "MCSuites", "su_cov.cfg", workers=8, coverage=True, timeout=600)
+        r = fetch("su_cov.cfg", coverage=True)
         tlc.require_ok(r, "C19 su_cov.cfg")
         tlc.require_coverage(r, ACTIONS, "C19 su_cov.cfg")
         rep.add_tlc(r, "su_cov.cfg")
         # the spec reproduces the recorded defect when told to behave as coded (non-vacuity of SortNoTypeError)
-        r = tlc.run_tlc("pure", "MCSuites", "su_coded.cfg", workers=2, timeout=600)
+        r = fetch("su_coded.cfg")
         if r.violated != "SortNoTypeError":
             raise tlc.MachineryError("C19 su_coded.cfg: expected SortNoTypeError to be violated, got %r %r" % (r.violated, r.error))
         rep.add_tlc(r, "su_coded.cfg (asCoded: SortNoTypeError violated as expected)")
 
         for mc in ("su_mc4.cfg",) if tier == "quick" else ("su_mc5.cfg", "su_mc6.cfg"):
-            r = tlc.run_tlc("pure", "MCSuites", mc, workers=8, timeout=3000)
+            r = fetch(mc)
             tlc.require_ok(r, "C19 " + mc)
             rep.add_tlc(r, mc)
 
@@ -548,7 +610,7 @@ def run(tier, pid="C19"):
         subs = []
         NIDS[0] = 3
         for exp_cfg in ("su_exp4.cfg", "su_exps5.cfg") if tier == "quick" else ("su_exp5.cfg", "su_exps6.cfg"):
-            r = tlc.run_tlc("pure", "MCSuites", exp_cfg, workers=8, timeout=3000)
+            r = fetch(exp_cfg)
             tlc.require_ok(r, "C19 " + exp_cfg)
             rep.add_tlc(r, exp_cfg)
             got = 0
@@ -564,10 +626,10 @@ def run(tier, pid="C19"):
             if got != r.distinct:
                 raise tlc.MachineryError("C19 %s: %d rows exported for %d distinct states" % (exp_cfg, got, r.distinct))
             nrows += got
-        subs = [(row, hk % 2) for hk, row, n in sorted(subs, key=lambda x: x[0])[:3]]
+        subs = [(row, hk % 4) for hk, row, n in sorted(subs, key=lambda x: x[0])[:3]]
         for row, n in subs:
             for ids in (None, row["filt"][rnd.randrange(len(row["filt"]))]):
-                bad = check_subprocess(row, n % 2, tmpdir, ids)
+                bad = check_subprocess(row, n % 4, tmpdir, ids)
                 rep.case(nontrivial_key=jdump(row["nodes"]) + "subprocess" + jdump(ids and ids["ids"]))
                 if bad:
                     rep.violation(bad[0], "run:subprocess:" + shape(nest(row["nodes"])),
@@ -575,9 +637,7 @@ def run(tier, pid="C19"):
         rep.extra["subprocess_runs"] = 2 * len(subs)
 
         NIDS[0] = 4
-        num = 400 if tier == "quick" else 6000
-        r = tlc.run_tlc("pure", "MCSuites", "su_sim.cfg", workers=8, timeout=3000,
-                        simulate=dict(num=num, depth=16), seed=rep.seed + 1)
+        r = fetch("su_sim.cfg", **sim_kw)
         tlc.require_ok(r, "C19 su_sim.cfg")
         rep.add_tlc(r, "su_sim.cfg")
         nb = 0
@@ -593,6 +653,8 @@ def run(tier, pid="C19"):
 
         shutil.rmtree(tmpdir, ignore_errors=True)
         sys.modules.pop("verif_c19_sub", None)
+        if pool is not None:
+            pool.shutdown(wait=True, cancel_futures=True)
     rep.exhaustive = False
     rep.extra["explanation"] = (
         "exhaustive over all trees of the export config (bounds in spec/pure/su_exp*.cfg) and all id subsets; "
@@ -607,6 +669,7 @@ def replay_file(path, pid="C19"):
     v = json.load(open(path))
     sc = v["scenario"]
     bad = None
+    set_variant(sc.get("variant", 0))
     if sc["kind"] == "row":
         NIDS[0] = 3
         root_abs = nest(sc["nodes"])
